@@ -32,19 +32,21 @@ VARIABLES hdr,      \* "start" record of the run: template, parameters, n, size 
           prev,     \* previous record (= projected state after the previous step)
           frames,   \* stack of [role, h] of the blocks being executed
           done,     \* run finished
-          minr      \* PSO: per particle, the best rank it has ever been evaluated at (history)
+          minr,     \* PSO: per particle, the best rank it has ever been evaluated at (history)
+          minx      \* minimum the objective function returned so far, NOT counting what a named deviation says is never
+                    \* offered to the best-individual update (ILS: the evaluation of the perturbed solution)
 
-rvars == <<hdr, prev, frames, done, minr>>
+rvars == <<hdr, prev, frames, done, minr, minx>>
 
 Last(s) == s[Len(s)]
 Zero == [ev |-> "zero", h |-> 0, sizes |-> <<>>, top |-> <<>>, topr |-> <<>>, uneval |-> 0, topmin |-> NoObj,
          stale |-> 0, evals |-> 0, iters |-> 0, calls |-> 0, best |-> NoObj, minseen |-> NoObj, sd |-> 1, xk |-> "-"]
 
 NoHdr == [template |-> "-"]
-RInit == hdr = NoHdr /\ prev = Zero /\ frames = <<>> /\ done = TRUE /\ minr = <<>>
+RInit == hdr = NoHdr /\ prev = Zero /\ frames = <<>> /\ done = TRUE /\ minr = <<>> /\ minx = NoObj
 
 Start(r) == /\ done
-            /\ hdr' = r /\ prev' = Zero /\ frames' = <<>> /\ done' = FALSE /\ minr' = <<>>
+            /\ hdr' = r /\ prev' = Zero /\ frames' = <<>> /\ done' = FALSE /\ minr' = <<>> /\ minx' = NoObj
 
 MinOf(q) == CHOOSE m \in {q[j] : j \in 1..Len(q)} : \A j \in 1..Len(q) : m <= q[j]
 InLoop(fs) == \E i \in 1..Len(fs) : fs[i].role = "loop_body"
@@ -152,6 +154,17 @@ Sa(r) ==
     /\ (r.ev = "exit" /\ r.role = "loop_body") => r.x.own[SaDepth(r)] = 1 /\ r.x.tnx[SaDepth(r)] = 1
     /\ Name(r) = "Loop" => r.x.own[SaDepth(r)] = 1 /\ r.x.tit[SaDepth(r)] = 1
 
+IsIls == hdr.template \in {"real_ils", "permutation_ils"}
+IsFa == hdr.template \in {"real_fa", "real_fa@A"}
+\* r.smin: the least value the objective function returned since the previous record (NoObj: it was not called).
+\* KF_IlsScopeWiring_Best names ONE evaluation whose result is never offered to the best-update: the evaluation step of
+\* the perturbed solution (the evaluation step of the ILS main loop itself, in the run's own scope).  Everything else
+\* the objective function returns -- start point, every local-search point -- is covered by the statement.
+NeverOffered(r) == /\ IsIls /\ r.ev = "step" /\ r.name = "PopulationEvaluator" /\ r.sd = 1
+                   /\ Len(frames) > 0 /\ Last(frames).role = "loop_body"
+LeastOf(a, b) == IF a = NoObj THEN b ELSE IF b = NoObj THEN a ELSE IF a < b THEN a ELSE b
+MinX(r) == IF NeverOffered(r) THEN minx ELSE LeastOf(minx, r.smin)
+
 \* ---- what every record must satisfy, relative to the previous one
 Common(r) ==
     /\ On("C05") => r.stale = 0                      \* C05: nobody reports a value that is not f(solution)
@@ -173,16 +186,17 @@ Enter(r) == /\ r.ev = "enter"
             /\ r.sizes = prev.sizes /\ r.calls = prev.calls
             /\ frames' = Append(frames, [role |-> r.role, h |-> r.h])
             /\ minr' = MinrKeep(r)
+            /\ minx' = MinX(r)
             /\ UNCHANGED <<hdr, done>> /\ prev' = r
 
-IsIls == hdr.template \in {"real_ils", "permutation_ils"}
-IsFa == hdr.template \in {"real_fa", "real_fa@A"}
 \* C07, "reported best = minimum the objective function returned", with the two named deviations of the pinned code:
 \* ILS never offers the perturbed solution to the best-update; the firefly update evaluates every intermediate
 \* position of a moving firefly itself and only the final position reaches the population (and the best-update)
-BestIsMin(b, m) ==
+\* (mx: the minimum over everything but the evaluations the ILS finding names -- the finding explains a best that is
+\* worse than the minimum returned only if it still is the minimum of all the rest)
+BestIsMin(b, m, mx) ==
     IF IsFa THEN Dev(b = m, "KF_FireflyIntermediate_Best", b > m)
-    ELSE Dev(b = m, "KF_IlsScopeWiring_Best", IsIls /\ b > m)
+    ELSE Dev(b = m, "KF_IlsScopeWiring_Best", IsIls /\ b > m /\ b = mx)
 
 Exit(r) == /\ r.ev = "exit"
            /\ Len(frames) > 0
@@ -203,9 +217,10 @@ Exit(r) == /\ r.ev = "exit"
               \* C07: a run may end after any pass of its main loop, so what holds at the end of a run holds here:
               \* the recorded best is the minimum the objective function returned so far
               /\ (On("C07") /\ f.role = "loop_body" /\ ~InLoop(rest) /\ r.sd = 1 /\ r.calls > 0) =>
-                    BestIsMin(r.best, r.minseen)
+                    BestIsMin(r.best, r.minseen, MinX(r))
               /\ frames' = rest
            /\ minr' = MinrKeep(r)
+           /\ minx' = MinX(r)
            /\ UNCHANGED <<hdr, done>> /\ prev' = r
 
 StepLeaf(r) ==
@@ -230,6 +245,7 @@ StepLeaf(r) ==
                     THEN [i \in 1..Len(r.topr) |-> IF r.topr[i] < minr[i] THEN r.topr[i] ELSE minr[i]]
                     ELSE r.topr
                ELSE MinrKeep(r)
+    /\ minx' = MinX(r)
     /\ UNCHANGED <<hdr, frames, done>> /\ prev' = r
 
 StepComposite(r) ==
@@ -237,6 +253,7 @@ StepComposite(r) ==
     /\ Common(r)
     /\ r.sizes = prev.sizes /\ r.calls = prev.calls
     /\ minr' = MinrKeep(r)
+    /\ minx' = MinX(r)
     /\ UNCHANGED <<hdr, frames, done>> /\ prev' = r
 
 End(r) == /\ r.ev = "end"
@@ -251,7 +268,7 @@ End(r) == /\ r.ev = "end"
           /\ (On("C06") /\ r.result = "ok") => Dev(r.evals = r.calls, "KF_IlsScopeWiring_Count", IsIls /\ r.evals < r.calls)
           \* reported best = minimum ever returned
           /\ (On("C07") /\ r.result = "ok" /\ r.calls > 0) =>
-                BestIsMin(prev.best, r.minseen)
+                BestIsMin(prev.best, r.minseen, minx)
           \* C19: generation always yields its tours and the updates are well-formed: an ant-colony run never aborts
           /\ (On("C19") /\ hdr.xk = "aco") => r.result = "ok"
           \* C20: "all steps of CRO template runs": every pass performs one of the four reactions, none aborts
@@ -261,7 +278,7 @@ End(r) == /\ r.ev = "end"
                 /\ r.result = "ok"
                 /\ r.iters = hdr.n
           /\ done' = TRUE /\ frames' = <<>>
-          /\ UNCHANGED <<hdr, minr>> /\ prev' = prev
+          /\ UNCHANGED <<hdr, minr, minx>> /\ prev' = prev
 
 Do(r) == CASE r.ev = "start" -> Start(r)
            [] r.ev = "enter" -> Enter(r)
